@@ -526,6 +526,7 @@ func run(c Case) kit.Outcome {
 			return fail(kit.Fail("stray-signal", "a Done channel received a Call that no asynchronous call of this history owns (%d times)", len(ss)))
 		}
 	}
+	pingOK, pingResp := 0, 0
 	for _, cs := range calls {
 		var err error
 		if cs.returned == nil {
@@ -547,6 +548,16 @@ func run(c Case) kit.Outcome {
 			err = cs.retErr
 		}
 		// outcome must be justified by the history
+		if cs.form == "ping" {
+			// pings carry no payload and are interchangeable: judged as a group below
+			if err == nil {
+				pingOK++
+			}
+			if cs.okResp {
+				pingResp++
+			}
+			continue
+		}
 		switch {
 		case err == nil:
 			if !cs.okResp {
@@ -560,6 +571,9 @@ func run(c Case) kit.Outcome {
 				return fail(kit.Fail("error-without-response", "%s call %d failed with a handler error text nobody sent", cs.form, cs.idx))
 			}
 		}
+	}
+	if pingOK > pingResp {
+		return fail(kit.Fail("success-without-response", "%d pings completed successfully although only %d successful ping responses were ever delivered", pingOK, pingResp))
 	}
 	// NumCalls after the connection ended is observed, not asserted (the statement does not
 	// promise it).
